@@ -98,6 +98,24 @@ PROPS = {
                       "(writer-preferring or fairer) and that user hooks return and do not re-enter the handle",
         "design_ref": "5/C09",
     },
+    "C10": {
+        "title": "Async writes: visible at once, flushed by threshold/timeout, complete at Close",
+        "modules": ["Props.C10"],
+        "quick": {"profiles": [("async", 16, 3)]},
+        "thorough": {"profiles": [("async", 16, 40)]},
+        "target": has(("tick ", "flushall", "close")),
+        "level_note": "proof of the flusher state machine over every interleaving of polls and calls; wall-clock behaviour "
+                      "(sleep granularity, scheduler latency) is observed in real time by the `async` profile, not proved",
+        "design_ref": "5/C10",
+    },
+    "C12": {
+        "title": "Observable behaviour does not depend on storage configuration or indexing",
+        "modules": ["Props.C12"],
+        "quick": {"profiles": [("args", 8, 30)], "special": ["config_pairs"]},
+        "thorough": {"profiles": [("args", 16, 300)], "special": ["config_pairs"]},
+        "target": has(("search ", "exist ")),
+        "design_ref": "5/C12",
+    },
     "C11": {
         "title": "Control detects every divergence, Repair restores agreement",
         "modules": ["Props.C11"],
